@@ -463,6 +463,7 @@ CACHE_PREFIXES = [
     # look-alikes: no leading dot, other letter, marker inside the query
     "https://ampproject.org/c/", "https://a-com.cdn.ampproject.org/x/", "https://xbc.marfeel.com/",
     "https://a.com/?x=.ampproject.org/c/s/", "https://a.com/?u=https%3A%2F%2Fa-com.cdn.ampproject.org%2Fc%2Fs%2F",
+    "http://bc-marfeel.com/", "http://bcxmarfeel.com:8080/", "https://example.com/bc/marfeel.com/", "http://bc.marfeelcacheXcom/amp/", "http://cdn-ampproject.org/c/s/",
 ]
 CACHE_TAILS = ["", "b.c/x", "b.c/x?y=1#f", "b.c/x.amp?test#test", "/", "//", "s/", "s/b.c", "b.c", "?", "#",
                "b.c/?u=http%3A%2F%2Fd.e", "b.c/?u=/x", "b.c/?u=//", "b.c?u=//%3Fx", "u=//", "?u=//", "&u=/x",
